@@ -243,4 +243,306 @@ theorem delete_inv (ac : Acct) (h : Inv ac) (id : Nat) (c : Ctrl) (hc : assocFin
     · exact List.Nodup.sublist List.filter_sublist (h.nodup _)
     · exact h.nodup p'
 
+/-- retarget = unrecord at the old target, record at the new one: never hits an `unreachable` branch
+and keeps the refinement -/
+theorem retarget_inv (ac : Acct) (h : Inv ac) (id p : Nat) (c : Ctrl) (hc : assocFind id ac.ctrls = some c) :
+    ∃ i1 i2, unrecord ac.index c.target id = some i1 ∧ record i1 p id = some i2 ∧
+      Inv { ac with ctrls := assocSet id { c with target := p } ac.ctrls, index := i2 } := by
+  have hm : id ∈ ac.idsAt c.target := (h.consistent _ _).2 ⟨c, hc, rfl⟩
+  obtain ⟨i1, hu⟩ := unrecord_ok ac.index c.target id hm
+  obtain ⟨_, hs1⟩ := unrecord_spec _ _ _ _ hu
+  -- the ids of the intermediate index
+  have hmem1 : ∀ p' id', id' ∈ idsIn i1 p' ↔ id' ∈ idsIn ac.index p' ∧ id' ≠ id := by
+    intro p' id'
+    rw [hs1 p']
+    by_cases hp : p' = c.target
+    · subst hp; simp
+    · simp only [hp, if_false]
+      constructor
+      · intro hx
+        refine ⟨hx, ?_⟩
+        intro he; subst he
+        obtain ⟨c', hc', ht⟩ := (h.consistent p' id').1 hx
+        rw [hc] at hc'; cases hc'; exact hp ht.symm
+      · exact fun hx => hx.1
+  have hnd1 : ∀ p', (idsIn i1 p').Nodup := by
+    intro p'
+    rw [hs1 p']
+    split
+    · exact List.Nodup.sublist List.filter_sublist (h.nodup _)
+    · exact h.nodup p'
+  have hnot : id ∉ idsIn i1 p := fun hx => ((hmem1 p id).1 hx).2 rfl
+  obtain ⟨i2, hr⟩ := record_ok i1 p id hnot
+  obtain ⟨_, hs2⟩ := record_spec _ _ _ _ hr
+  refine ⟨i1, i2, hu, hr, ⟨?_, ?_, ?_⟩⟩
+  · intro id' c' hf
+    show id' ≤ ac.nextId
+    by_cases hid : id' = id
+    · subst hid; exact h.idsLe _ _ hc
+    · rw [find_set_other _ _ _ hid] at hf; exact h.idsLe _ _ hf
+  · intro p' id'
+    simp only [Acct.idsAt]
+    have hs := hs2 p'
+    simp only [idsIn] at hs hmem1
+    rw [hs]
+    by_cases hid : id' = id
+    · subst hid
+      rw [find_set_self]
+      by_cases hp : p' = p
+      · subst hp; simp
+      · simp only [hp, if_false]
+        constructor
+        · intro hx; exact absurd rfl ((hmem1 p' id').1 hx).2
+        · rintro ⟨c', hc', ht⟩
+          simp at hc'; subst hc'; exact absurd ht.symm hp
+    · rw [find_set_other _ _ _ hid]
+      have hcons := h.consistent p' id'
+      simp only [Acct.idsAt] at hcons
+      rw [← hcons]
+      by_cases hp : p' = p
+      · subst hp
+        simp only [if_true, List.mem_append, List.mem_singleton, hmem1]
+        constructor
+        · rintro (hx | hx)
+          · exact hx.1
+          · exact absurd hx hid
+        · exact fun hx => Or.inl ⟨hx, hid⟩
+      · simp only [hp, if_false, hmem1]
+        exact ⟨fun hx => hx.1, fun hx => ⟨hx, hid⟩⟩
+  · intro p'
+    simp only [Acct.idsAt]
+    have hs := hs2 p'
+    simp only [idsIn] at hs
+    rw [hs]
+    by_cases hp : p' = p
+    · subst hp
+      simp only [if_true]
+      refine List.nodup_append.2 ⟨hnd1 p', by simp, ?_⟩
+      intro x hx y hy
+      simp at hy; subst hy
+      intro he; subst he
+      exact hnot hx
+    · simp only [hp, if_false]; exact hnd1 p'
+
+/-- setTag changes no target -/
+theorem setTag_inv (ac : Acct) (h : Inv ac) (id : Nat) (tag : String) (c : Ctrl) (hc : assocFind id ac.ctrls = some c) :
+    Inv { ac with ctrls := assocSet id { c with tag := tag } ac.ctrls } := by
+  refine ⟨?_, ?_, ?_⟩
+  · intro id' c' hf
+    show id' ≤ ac.nextId
+    by_cases hid : id' = id
+    · subst hid; exact h.idsLe _ _ hc
+    · rw [find_set_other _ _ _ hid] at hf; exact h.idsLe _ _ hf
+  · intro p' id'
+    have hcons := h.consistent p' id'
+    show id' ∈ ac.idsAt p' ↔ _
+    rw [hcons]
+    by_cases hid : id' = id
+    · subst hid
+      rw [find_set_self, hc]
+      simp
+    · rw [find_set_other _ _ _ hid]
+  · exact h.nodup
+
+/-- the refinement relation only reads the controllers, the index and the counter -/
+theorem inv_congr (ac ac' : Acct) (h : Inv ac) (h1 : ac'.ctrls = ac.ctrls) (h2 : ac'.index = ac.index)
+    (h3 : ac'.nextId = ac.nextId) : Inv ac' := by
+  refine ⟨?_, ?_, ?_⟩
+  · intro id c hf; rw [h3]; rw [h1] at hf; exact h.idsLe id c hf
+  · intro p id; simp only [Acct.idsAt, h1, h2]; exact h.consistent p id
+  · intro p; simp only [Acct.idsAt, h2]; exact h.nodup p
+
+/-- every operation keeps the refinement in every account, and none reaches an `unreachable` branch
+of the Go code -/
+theorem step_inv (s : State) (h : SInv s) (op : Op) :
+    step s op ≠ .abort .internal ∧ ∀ s' o, step s op = .ok (s', o) → SInv s' := by
+  cases op with
+  | issue a p ty =>
+    obtain ⟨hnone, index', hr, hinv⟩ := issue_inv (s a) (h a) p ty
+    simp only [step, hnone, hr]
+    refine ⟨by simp, ?_⟩
+    intro s' o heq
+    simp at heq
+    rw [← heq.1]
+    exact sinv_set s a _ h hinv
+  | retarget a id p =>
+    cases hc : assocFind id (s a).ctrls with
+    | none =>
+      simp only [step, hc]
+      exact ⟨by simp, fun s' o heq => by simp at heq; rw [← heq.1]; exact h⟩
+    | some c =>
+      obtain ⟨i1, i2, hu, hr, hinv⟩ := retarget_inv (s a) (h a) id p c hc
+      simp only [step, hc, hu, hr]
+      refine ⟨by simp, ?_⟩
+      intro s' o heq
+      simp at heq
+      rw [← heq.1]
+      exact sinv_set s a _ h hinv
+  | delete a id =>
+    cases hc : assocFind id (s a).ctrls with
+    | none =>
+      simp only [step, hc]
+      exact ⟨by simp, fun s' o heq => by simp at heq; rw [← heq.1]; exact h⟩
+    | some c =>
+      obtain ⟨i1, hu, hinv⟩ := delete_inv (s a) (h a) id c hc
+      simp only [step, hc, hu]
+      refine ⟨by simp, ?_⟩
+      intro s' o heq
+      simp at heq
+      rw [← heq.1]
+      exact sinv_set s a _ h hinv
+  | setTag a id tag =>
+    cases hc : assocFind id (s a).ctrls with
+    | none =>
+      simp only [step, hc]
+      exact ⟨by simp, fun s' o heq => by simp at heq; rw [← heq.1]; exact h⟩
+    | some c =>
+      simp only [step, hc]
+      refine ⟨by simp, ?_⟩
+      intro s' o heq
+      simp at heq
+      rw [← heq.1]
+      exact sinv_set s a _ h (setTag_inv (s a) (h a) id tag c hc)
+  | getController a id =>
+    simp only [step]
+    split <;> exact ⟨by simp, fun s' o heq => by simp at heq; rw [← heq.1]; exact h⟩
+  | getControllers a p =>
+    have hall : ((s a).idsAt p).all (fun id => (assocFind id (s a).ctrls).isSome) = true := by
+      rw [List.all_eq_true]
+      intro id hid
+      obtain ⟨c, hc, _⟩ := ((h a).consistent p id).1 hid
+      simp [hc]
+    simp only [step, hall, if_true]
+    exact ⟨by simp, fun s' o heq => by simp at heq; rw [← heq.1]; exact h⟩
+  | forEachController a p =>
+    have hall : ((s a).idsAt p).all (fun id => (assocFind id (s a).ctrls).isSome) = true := by
+      rw [List.all_eq_true]
+      intro id hid
+      obtain ⟨c, hc, _⟩ := ((h a).consistent p id).1 hid
+      simp [hc]
+    simp only [step, hall, if_true]
+    exact ⟨by simp, fun s' o heq => by simp at heq; rw [← heq.1]; exact h⟩
+  | publish a id q =>
+    simp only [step]
+    split
+    · exact ⟨by simp, fun s' o heq => by simp at heq; rw [← heq.1]; exact h⟩
+    · split
+      · exact ⟨by simp, fun s' o heq => by simp at heq⟩
+      · refine ⟨by simp, fun s' o heq => ?_⟩
+        simp at heq
+        rw [← heq.1]
+        exact sinv_set s a _ h (inv_congr (s a) _ (h a) rfl rfl rfl)
+  | unpublish a q =>
+    simp only [step]
+    split
+    · exact ⟨by simp, fun s' o heq => by simp at heq; rw [← heq.1]; exact h⟩
+    · refine ⟨by simp, fun s' o heq => ?_⟩
+      simp at heq
+      rw [← heq.1]
+      exact sinv_set s a _ h (inv_congr (s a) _ (h a) rfl rfl rfl)
+  | exists_ a q =>
+    simp only [step]
+    exact ⟨by simp, fun s' o heq => by simp at heq; rw [← heq.1]; exact h⟩
+  | get a q w =>
+    simp only [step]
+    split
+    · exact ⟨by simp, fun s' o heq => by simp at heq; rw [← heq.1]; exact h⟩
+    · split <;> exact ⟨by simp, fun s' o heq => by simp at heq; rw [← heq.1]; exact h⟩
+  | borrow a q w =>
+    simp only [step]
+    split
+    · exact ⟨by simp, fun s' o heq => by simp at heq; rw [← heq.1]; exact h⟩
+    · split <;> exact ⟨by simp, fun s' o heq => by simp at heq; rw [← heq.1]; exact h⟩
+  | inboxPublish a id name recipient =>
+    simp only [step]
+    split
+    · exact ⟨by simp, fun s' o heq => by simp at heq; rw [← heq.1]; exact h⟩
+    · refine ⟨by simp, fun s' o heq => ?_⟩
+      simp at heq
+      rw [← heq.1]
+      exact sinv_set s a _ h (inv_congr (s a) _ (h a) rfl rfl rfl)
+  | inboxUnpublish a name w =>
+    simp only [step]
+    split
+    · exact ⟨by simp, fun s' o heq => by simp at heq; rw [← heq.1]; exact h⟩
+    · split
+      · exact ⟨by simp, fun s' o heq => by simp at heq⟩
+      · refine ⟨by simp, fun s' o heq => ?_⟩
+        simp at heq
+        rw [← heq.1]
+        exact sinv_set s a _ h (inv_congr (s a) _ (h a) rfl rfl rfl)
+  | inboxClaim a name provider w =>
+    simp only [step]
+    split
+    · exact ⟨by simp, fun s' o heq => by simp at heq; rw [← heq.1]; exact h⟩
+    · split
+      · exact ⟨by simp, fun s' o heq => by simp at heq; rw [← heq.1]; exact h⟩
+      · split
+        · exact ⟨by simp, fun s' o heq => by simp at heq⟩
+        · refine ⟨by simp, fun s' o heq => ?_⟩
+          simp at heq
+          rw [← heq.1]
+          exact sinv_set s provider _ h (inv_congr (s provider) _ (h provider) rfl rfl rfl)
+  | save a p ty x =>
+    simp only [step]
+    split
+    · exact ⟨by simp, fun s' o heq => by simp at heq⟩
+    · refine ⟨by simp, fun s' o heq => ?_⟩
+      simp at heq
+      rw [← heq.1]
+      exact sinv_set s a _ h (inv_congr (s a) _ (h a) rfl rfl rfl)
+  | load a p =>
+    simp only [step]
+    split
+    · exact ⟨by simp, fun s' o heq => by simp at heq; rw [← heq.1]; exact h⟩
+    · refine ⟨by simp, fun s' o heq => ?_⟩
+      simp at heq
+      rw [← heq.1]
+      exact sinv_set s a _ h (inv_congr (s a) _ (h a) rfl rfl rfl)
+  | panic =>
+    simp only [step]
+    exact ⟨by simp, fun s' o heq => by simp at heq⟩
+
+theorem runOps_inv : ∀ (ops : List Op) (s : State) (acc : List Obs), SInv s →
+    SInv (runOps s ops acc).1 ∧ (runOps s ops acc).2.outcome ≠ some .internal
+  | [], s, acc, h => by simp [runOps, h]
+  | op :: ops, s, acc, h => by
+    obtain ⟨hni, hok⟩ := step_inv s h op
+    simp only [runOps]
+    cases hst : step s op with
+    | ok r =>
+      obtain ⟨s', o⟩ := r
+      exact runOps_inv ops s' (o :: acc) (hok s' o hst)
+    | abort e =>
+      refine ⟨h, ?_⟩
+      simp only [ne_eq, Option.some.injEq]
+      intro he; subst he; exact hni hst
+
+theorem runTx_inv (s : State) (tx : List Op) (h : SInv s) :
+    SInv (runTx s tx).1 ∧ (runTx s tx).2.outcome ≠ some .internal := by
+  obtain ⟨h1, h2⟩ := runOps_inv tx s [] h
+  unfold runTx
+  cases hr : runOps s tx [] with
+  | mk s' o =>
+    rw [hr] at h1 h2
+    simp only
+    cases ho : o.outcome with
+    | none => simp only; exact ⟨h1, by rw [ho]; simp⟩
+    | some e => simp only; exact ⟨h, by simpa using h2⟩
+
+theorem runHist_inv : ∀ (hist : List (List Op)) (s : State), SInv s →
+    SInv (runHist s hist).1 ∧ ∀ o ∈ (runHist s hist).2, o.outcome ≠ some .internal
+  | [], s, h => by simp [runHist, h]
+  | tx :: rest, s, h => by
+    obtain ⟨h1, h2⟩ := runTx_inv s tx h
+    obtain ⟨h3, h4⟩ := runHist_inv rest (runTx s tx).1 h1
+    simp only [runHist]
+    refine ⟨h3, ?_⟩
+    intro o ho
+    rcases List.mem_cons.1 ho with he | hm
+    · subst he; exact h2
+    · exact h4 o hm
+
+theorem sinv_init : SInv init := fun _ => inv_init
+
 end Verif.Proofs.Caps
